@@ -5253,10 +5253,18 @@ func readOffsets(b *Bitmap, data []byte, pos int, keyN uint32) error {
 		// Map byte slice directly to the container data.
 		citer.Next()
 		_, c := citer.Value()
+		// The container's data must lie inside the input: the slices set
+		// below are unchecked views of data.
 		switch c.typ() {
 		case containerArray:
+			if int(offset)+int(c.N())*2 > len(data) {
+				return fmt.Errorf("array container out of bounds: off=%d, n=%d, len=%d", offset, c.N(), len(data))
+			}
 			c.setArray((*[0xFFFFFFF]uint16)(unsafe.Pointer(&data[offset]))[:c.N():c.N()])
 		case containerBitmap:
+			if int(offset)+bitmapN*8 > len(data) {
+				return fmt.Errorf("bitmap container out of bounds: off=%d, len=%d", offset, len(data))
+			}
 			c.setBitmap((*[0xFFFFFFF]uint64)(unsafe.Pointer(&data[offset]))[:bitmapN:bitmapN])
 		default:
 			return fmt.Errorf("unsupported container type %d", c.typ())
